@@ -252,6 +252,10 @@ fn gen_chain(rng: &mut Rng, uid: usize, want_fault: bool, allow_assign: bool) ->
             stats.push(format!("chain_fault_node={}", nodes[t].kind.instr()));
             stats.push(format!("chain_fault_at={}", if is_last_op { "last-node" } else if t == 0 { "first-node" } else { "inner-node" }));
             stats.push(format!("chain_fault_checked_after={}", nodes.get(t + 1).is_some_and(|n| n.kind == CNode::Null)));
+            let own = nodes.iter().filter(|n| n.rel_line == nodes[t].rel_line).all(|n| (n.col0, n.col1) == (nodes[t].col0, nodes[t].col1)) && nodes[t].rel_line > 0;
+            if is_last_op && own && nodes.last().is_some_and(|n| n.kind == CNode::Null) {
+                stats.push("chain_fault_shape=last-node-on-own-line-before-final-null-check".into());
+            }
             stats.push(format!("chain_fault_line_of_its_own={}", nodes.iter().filter(|n| n.rel_line == nodes[t].rel_line).all(|n| (n.col0, n.col1) == (nodes[t].col0, nodes[t].col1)) && nodes[t].rel_line > 0));
         } else {
             stats.push("chain_fault_node=compound-operator".into());
